@@ -749,6 +749,9 @@ func c14randOrder(r *rng, recs []c14rec) []int {
 
 func c14(c *ctx) {
 	o, r := c.o, c.r
+	// (c) the entry points from a UDP socket into a stream (c14entry.go); run first and unconditionally
+	c14readFromEntry(c, r.fork())
+	c14udpEntry(c, r.fork())
 	// (a) pipe scripts
 	nScripts, nOps, nConc := 3000, 40, 60
 	if c.thorough() {
